@@ -4,7 +4,7 @@
    A *definition request* d is what a user hands to SynthDef(name, func, rates, prepend, variants,
    metadata) together with the SynthDef.wrap calls the function bodies make:
 
-     d = [name, funcs, variants]
+     d = [name, funcs, variants, hist]
      funcs    : sequence of functions in the order in which their control sets are built (funcs[1]
                 is the graph function, funcs[k>1] is wrapped by the body of funcs[funcs[k].parent];
                 a body first uses its own parameters and then performs its wrap calls in order, so
@@ -17,6 +17,7 @@
                  dk default     missing|None|scalar|tuple,         dv   the value(s) (x8),
                  dty literal kind of each default value for the driver: i int | f float | b bool (<<>> = any),
                  sk metadata    none|spec,                          sv   spec default (x8)]
+     hist     : sequence of serialisations performed on the definition object: as_bytes | write | store
      variant  : [n, set: sequence of [n parameter name, v values]]   (fl: name length asked of the generator)
 
    All numbers are integers = real value * 8 (TLC has no floats; the drivers only use multiples
@@ -100,6 +101,9 @@ WellFormed(d) ==
     \* pre-order of the wrap tree = order in which the bodies run
     /\ \A k \in 2..Len(d.funcs) : d.funcs[k].parent \in Ancestors(d.funcs, k - 1)
     /\ LET ps == AllParams(d) IN \A i, j \in 1..Len(ps) : i # j => ps[i].n # ps[j].n
+    /\ \A v \in 1..Len(d.variants) : \A a, b \in 1..Len(d.variants[v].set) :
+          a # b => d.variants[v].set[a].n # d.variants[v].set[b].n
+    /\ Len(d.hist) >= 1 /\ \A k \in 1..Len(d.hist) : d.hist[k] \in {"as_bytes", "write", "store"}
 
 (* ------------------------------------------------------------------ L1: the layout *)
 \* control parameters in build order, each with its function and position
@@ -168,16 +172,27 @@ VariantCtl(L, var) ==
         ELSE LET a == CHOOSE a \in hit : \A b \in hit : b <= a      \* later assignment wins
                  i == CHOOSE i \in 1..Len(L) : L[i].n = var.set[a].n IN
              var.set[a].v[s - L[i].slot]]
-\* the file format holds variant names of at most 32 characters ("defname.key"); a longer one is refused and,
-\* as documented by the writer, so is every variant after it: the variants written are the prefix before it
+\* Which variants are written.  A variant is refused when its full name "defname.key" is longer than the 32
+\* characters the file format holds, when one of its pairs names no control, or when a pair has more values
+\* than the parameter has channels; as documented by the writer ("not writing more variants") so is every
+\* variant after it: the variants written are the prefix before the first refused one.  A refused variant
+\* leaves no trace: the default array and the written variants are as if it had not been requested.
 MaxVariantName == 32
 FullName(dd, var) == dd.name \o "." \o var.n
-WrittenVariants(dd) ==
-    LET long == {v \in 1..Len(dd.variants) : Len(FullName(dd, dd.variants[v])) > MaxVariantName} IN
-    IF long = {} THEN dd.variants
-    ELSE SubSeq(dd.variants, 1, (CHOOSE v \in long : \A y \in long : v <= y) - 1)
 VariantOK(L, var) ==
     \A a \in 1..Len(var.set) : \E i \in 1..Len(L) : L[i].n = var.set[a].n /\ Len(var.set[a].v) \in 1..L[i].w
+Refused(dd, L, var) == Len(FullName(dd, var)) > MaxVariantName \/ ~VariantOK(L, var)
+WrittenVariantsL(dd, L) ==
+    LET bad == {v \in 1..Len(dd.variants) : Refused(dd, L, dd.variants[v])} IN
+    IF bad = {} THEN dd.variants
+    ELSE SubSeq(dd.variants, 1, (CHOOSE v \in bad : \A y \in bad : v <= y) - 1)
+WrittenVariants(dd) == WrittenVariantsL(dd, Layout(dd))
+
+\* Serialisation is a pure function of the request: whatever sequence of serialisations (as_bytes, writing
+\* the definition list, store to a file) is performed on one definition object, each of them yields the same
+\* default array, name table, control units and variant blocks - those given by the operators above.
+SerOps == {"as_bytes", "write", "store"}
+HistOK(h) == Len(h) >= 1 /\ \A k \in 1..Len(h) : h[k] \in SerOps
 
 \* calling the definition: positional arguments name the graph function's own control parameters
 \* in declaration order, keyword arguments name any control
@@ -223,13 +238,13 @@ LagOnlyOnControlRate(L) ==
 UnitsAsUnits(us) == [x \in 1..Len(us) |-> us[x]]
 L2CoversL1(d) == Covers(ExpectedUnits(d), Layout(d))
 VariantsLocal(d) ==   \* a variant changes exactly the slots it names
-    LET L == Layout(d) IN
-    \A v \in 1..Len(d.variants) :
-        LET vc == VariantCtl(L, d.variants[v])  D == Defaults(L) IN
+    LET L == Layout(d)  wr == WrittenVariantsL(d, L) IN
+    \A v \in 1..Len(wr) :
+        LET vc == VariantCtl(L, wr[v])  D == Defaults(L) IN
         \A s \in 1..Total(L) :
             vc[s] # D[s] =>
-                \E a \in 1..Len(d.variants[v].set) : \E i \in 1..Len(L) :
-                    L[i].n = d.variants[v].set[a].n /\ L[i].slot < s /\ s <= L[i].slot + L[i].w
+                \E a \in 1..Len(wr[v].set) : \E i \in 1..Len(L) :
+                    L[i].n = wr[v].set[a].n /\ L[i].slot < s /\ s <= L[i].slot + L[i].w
 
 (* ------------------------------------------------------------------ generator *)
 CONSTANTS Annots,      \* annotations to use
@@ -240,6 +255,8 @@ CONSTANTS Annots,      \* annotations to use
           MaxFuncs, MaxParams, MaxTotal, MaxBound, MaxVariants, MinEmit,
           VarLens,     \* full-name lengths asked of variants (0 = whatever the short key gives)
           VarW,        \* subset of 1..3: widths / zero mode of a variant's first assignment
+          VarBad,      \* how a variant may be invalid: "none", "unknown_last", "oversize_last", "unknown_first"
+          HistChoices, \* serialisation histories to emit every request with
           SimMode      \* TRUE under `tlc -simulate`: one random parameter per step instead of all of them
 VARIABLES d, phase
 vars == <<d, phase>>
@@ -283,6 +300,10 @@ AnAll == {"none"} \cup RateNames
 AnSmall == {"none", "ir", "ar"}
 AnTiny == {"none", "tr"}
 AnNone == {"none"}
+\* serialisation histories (the first entry produces the observation the layout clauses are checked on)
+HistTwo == {<<"as_bytes", "write">>}
+HistAll == {<<"as_bytes", "write", "as_bytes">>, <<"write", "as_bytes">>, <<"store", "as_bytes", "write">>,
+            <<"as_bytes", "store", "store">>}
 
 NParams(dd) == Len(AllParams(dd))
 LastF(dd) == Len(dd.funcs)
@@ -297,7 +318,7 @@ WithParam(dd, p) ==
 Pick(S) == IF SimMode THEN {RandomElement(S)} ELSE S
 EmitAt == {12, 19, 26, 33, 40}     \* simulation emits long requests only
 
-Init == /\ d = [name |-> "d", funcs |-> <<[parent |-> 0, params |-> <<>>]>>, variants |-> <<>>]
+Init == /\ d = [name |-> "d", funcs |-> <<[parent |-> 0, params |-> <<>>]>>, variants |-> <<>>, hist |-> <<"as_bytes">>]
         /\ phase = "build"
 
 \* simulation: make a random pick well-formed instead of discarding it
@@ -348,13 +369,21 @@ AddVariant ==
              LET a1 == [n |-> L[i].n, v |-> [c \in 1..(IF w = 3 THEN L[i].w ELSE Min2(w, L[i].w)) |->
                                                 IF w = 3 THEN 0 ELSE 800 + 8 * (10 * Len(d.variants) + c)]]
                  a2 == IF i2 = 0 \/ i2 = i THEN <<>>
-                       ELSE <<[n |-> L[i2].n, v |-> [c \in 1..L[i2].w |-> 1600 + 8 * c]]>> IN
+                       ELSE <<[n |-> L[i2].n, v |-> [c \in 1..L[i2].w |-> 1600 + 8 * c]]>>
+                 unk == [n |-> "nosuch", v |-> <<24>>]
+                 j == IF Len(L) >= 2 THEN (i % Len(L)) + 1 ELSE i      \* a pair names a parameter once (it is a dict)
+                 big == [n |-> L[j].n, v |-> [c \in 1..(L[j].w + 1) |-> 2400 + 8 * c]] IN
              \* fl: the driver side pads the key so that Len(defname.key) = fl (the trace spec measures the real name)
-             d' = [d EXCEPT !.variants = Append(@, [n |-> "v" \o ToString(Len(@)), fl |-> fl, set |-> <<a1>> \o a2])]
+             \E bad \in VarBad :
+             d' = [d EXCEPT !.variants = Append(@, [n |-> "v" \o ToString(Len(@)), fl |-> fl,
+                                                    set |-> CASE bad = "unknown_last" -> <<a1>> \o a2 \o <<unk>>
+                                                              [] bad = "oversize_last" -> IF j = i THEN <<big>> ELSE <<a1, big>>
+                                                              [] bad = "unknown_first" -> <<unk, a1>> \o a2
+                                                              [] OTHER -> <<a1>> \o a2])]
     /\ UNCHANGED phase
 
 Emit == /\ phase = "build" /\ NParams(d) >= MinEmit /\ (SimMode => NParams(d) \in EmitAt)
-        /\ PrintT(<<"DEF", ToJson(d)>>)
+        /\ \A h \in HistChoices : PrintT(<<"DEF", ToJson([d EXCEPT !.hist = h])>>)
         /\ phase' = "done" /\ UNCHANGED d
 
 Next == AddBound \/ AddParam \/ OpenWrap \/ AddVariant \/ Emit
@@ -367,5 +396,8 @@ InvOrdered == Ordered(Layout(d))
 InvNames == NamesPointAtDefaults(Layout(d))
 InvLag == LagOnlyOnControlRate(Layout(d))
 InvL2CoversL1 == L2CoversL1(d)
-InvVariants == VariantsLocal(d) /\ \A v \in 1..Len(d.variants) : VariantOK(Layout(d), d.variants[v])
+InvVariants == /\ VariantsLocal(d)
+               /\ LET L == Layout(d)  wr == WrittenVariantsL(d, L) IN
+                  /\ \A v \in 1..Len(wr) : VariantOK(L, wr[v]) /\ wr[v] = d.variants[v]
+                  /\ Len(wr) < Len(d.variants) => Refused(d, L, d.variants[Len(wr) + 1])
 =============================================================================
